@@ -2,7 +2,9 @@
 //! `Vm::repl`.  Prints one JSON record per session: status, stdout, stderr and, from the compile
 //! log hook, for every entry that reached the compiler the functions it compiled (the script last):
 //! the module-symbol instructions of the unoptimised stream (`D<slot>` DeclareModSym, `G<slot>`
-//! GetModSym, `S<slot>` SetModSym) and the inline-cache sites of the optimised stream (`P`/`I`).
+//! GetModSym, `S<slot>` SetModSym), the inline-cache sites of the optimised stream (`P`/`I`), and — so
+//! that the check can read the cache id the encoder gave every site — the instruction names of the
+//! optimised stream (`post`) with the encoded bytes (`code`, hex).
 use laythe_vm::compiler::verif_peephole;
 use std::io::{BufRead, Write};
 use std::path::PathBuf;
@@ -57,18 +59,24 @@ fn main() {
         }
       }
       let mut sites: Vec<&str> = vec![];
+      let mut post: Vec<&str> = vec![];
       for ins in field(&rec, "POST ").split(';') {
         match ins.trim() {
           "PropertySlot" => sites.push("P"),
           "InvokeSlot" => sites.push("I"),
           _ => {},
         }
+        if let Some(w) = ins.split_whitespace().next() {
+          post.push(w);
+        }
       }
       cur.push(format!(
-        "{{\"name\":{},\"syms\":{},\"sites\":{}}}",
+        "{{\"name\":{},\"syms\":{},\"sites\":{},\"post\":{},\"code\":{}}}",
         json_str(&name),
         json_str(&syms.join(",")),
-        json_str(&sites.join(","))
+        json_str(&sites.join(",")),
+        json_str(&post.join(",")),
+        json_str(field(&rec, "CODE ").trim())
       ));
       if name == "script" {
         entries.push(format!("[{}]", cur.join(",")));
